@@ -172,6 +172,42 @@ void run_t(vf::Ctx& c)
         }
     }
 
+    // exact class: integer weights that sum to 2^digits, so that every cumulative boundary c / 2^digits is a canonical number
+    // and no rounding is involved anywhere: the half-open intervals decide, a number equal to a boundary belongs to the
+    // channel above it; one boundary is the largest canonical number itself (the last channel has the smallest possible share)
+    if (n >= 2)
+    {
+        int const D = std::numeric_limits<T>::digits;
+        std::uint64_t const hs = vf::mix2(0xC09, static_cast<std::uint64_t>(n) * 1315423911u + static_cast<std::uint64_t>(static_cast<long double>(w[0]) * 1e6L));
+        std::vector<long double> cuts; // c_1 <= ... <= c_{n-1}, as exact integers in [0, 2^D - 1]
+        for (std::size_t i = 1; i < n; ++i) { cuts.push_back(static_cast<long double>(vf::mix2(hs, i) >> (64 - D))); }
+        cuts.back() = std::ldexp(1.0L, D) - 1; // the largest canonical number times 2^D
+        if (n >= 3 && (hs & 1)) { cuts[0] = cuts[1]; } // a channel of weight zero in between
+        std::sort(cuts.begin(), cuts.end());
+        std::vector<T> we(n);
+        long double prev = 0;
+        for (std::size_t i = 0; i + 1 < n; ++i) { we[i] = static_cast<T>(cuts[i] - prev); prev = cuts[i]; }
+        we[n - 1] = static_cast<T>(std::ldexp(1.0L, D) - prev);
+        bool exact = true; // (differences of D-bit integers are exact in T; the check is cheap)
+        { long double tot = 0; for (auto x : we) { tot += x; } exact = tot == std::ldexp(1.0L, D); }
+        if (exact)
+        {
+            hep::discrete_distribution<std::size_t, T> de(we.begin(), we.end());
+            auto expect = [&](long double cnum) { std::size_t i = 0; while (i + 1 < n && cuts[i] <= cnum) { ++i; } return i; };
+            std::vector<long double> probe = {0.0L, std::ldexp(1.0L, D) - 1, std::ldexp(1.0L, D) - 2};
+            for (auto cv : cuts) { probe.push_back(cv); if (cv >= 1) { probe.push_back(cv - 1); } if (cv + 1 < std::ldexp(1.0L, D)) { probe.push_back(cv + 1); } }
+            for (long double cnum : probe)
+            {
+                T seen;
+                std::size_t const got = select<T>(de, std::ldexp(cnum, -D), seen, c);
+                ++c.sub;
+                VF_CHECK(c, got == expect(cnum), "C09:exact-interval", "integer weights " << vf::show(we, 8) << " (sum 2^" << D << "): the canonical number " << vf::show<long double>(cnum) << " / 2^" << D
+                    << " selected channel " << got << ", its half-open interval belongs to channel " << expect(cnum));
+            }
+            c.label("exact-dyadic-weights");
+        }
+    }
+
     // random canonical values
     std::size_t const nrand = t.range(0, 64);
     std::uint64_t const rseed = t.stream_seed();
